@@ -5,6 +5,7 @@ package sctp
 // reads into short buffers, read deadlines swept across the arrival instant.
 
 import (
+	"context"
 	"encoding/binary"
 	"fmt"
 	"runtime"
@@ -343,6 +344,41 @@ func init() {
 						w.pump(4)
 					}
 					w.heal(5 * time.Second)
+					w.snapAll = true
+					w.quiesce()
+					w.tr.emit(map[string]any{"ev": "expect", "drained": true, "t": w.now()})
+					w.finish(true)
+				})
+			}
+			// 4e. an on-demand heartbeat is answered whatever state the PEER is in: here the peer has called Shutdown
+			//     and still waits for its data to be acknowledged (SHUTDOWN-PENDING)
+			if next() {
+				label := fmt.Sprintf("api-heartbeat-shutpend-il%v#%d", il, k)
+				vfBubble(t, label, func() {
+					w := vfNewWorld(vfWorldOpt{Label: label, Trace: tr, A: vfEpCfg{InitTSN: 17, Tag: 0xA6, IL: il}, B: vfEpCfg{InitTSN: 45, Tag: 0xB6, IL: il, Server: true}})
+					if !w.vfConnect() {
+						w.finish(true)
+						return
+					}
+					w.open(1, 2, 51)
+					w.write(1, 2, 400, 51)
+					// the peer's DATA stays in the network: it has unacknowledged data when it starts to shut down
+					b := w.ep[1].a
+					w.apiAsync(1, "shutdown", func() error { return b.Shutdown(context.Background()) })
+					w.sleep(20 * time.Millisecond)
+					w.tr.emit(map[string]any{"ev": "api", "ep": 0, "op": "heartbeat", "t": w.now()})
+					w.ep[0].a.ActiveHeartbeat()
+					w.quiesce()
+					// only the heartbeat exchange moves for now
+					for r := 0; r < 3; r++ {
+						for _, p := range w.pending(-1) {
+							if kd := vfFirstKind(p.raw); kd == "hb" || kd == "hback" {
+								w.deliver(p.id)
+							}
+						}
+						w.sleep(5 * time.Millisecond)
+					}
+					w.heal(30 * time.Second)
 					w.snapAll = true
 					w.quiesce()
 					w.tr.emit(map[string]any{"ev": "expect", "drained": true, "t": w.now()})
